@@ -239,6 +239,56 @@ void profile_blast(RunCtx& ctx)
                     return;
             }
         }
+        // ---------------- the same fault in the XTA rendering: C06 for plain-text input ----------------
+        // (empty path, line and columns counted in the whole file; the fresh identifier is unique in the text)
+        if (ctx.keep(st_doc) && site.fault == TF_UNDECLARED && fr.guaranteed_error && rng.chance(0.3)) {
+            const std::string xta = render_xta(mf);
+            size_t at = xta.find(fr.ident);
+            if (at != std::string::npos && xta.find(fr.ident, at + 1) == std::string::npos) {
+                unsigned line = 1;
+                size_t line_start = 0;
+                for (size_t i = 0; i < at; ++i)
+                    if (xta[i] == '\n') {
+                        ++line;
+                        line_start = i + 1;
+                    }
+                const unsigned scol = (unsigned)(at - line_start), ecol = scol + (unsigned)fr.ident.size();
+                CallSpec c;
+                c.entry = rng.chance(0.5) ? E_XTA_STR : E_XTA_FILE;
+                c.backend = B_DOC;
+                c.bytes = xta;
+                c.sched = ctx.draw_sched(rng, false);
+                c.ceiling = default_ceiling(xta.size());
+                Session s;
+                ctx.hint = "blast-xta:" + fname + ":" + b.kind_name();
+                CallResult r = ctx.call(s, c, st_doc);
+                if (ctx.violations)
+                    return;
+                ctx.event("xta " + where + (r.threw ? " threw" : ""));
+                ctx.count("c06b-xta-loads");
+                if (!r.threw) {
+                    bool exact = false, any = false;
+                    std::ostringstream got;
+                    for (auto& d : view_diagnostics(*s.doc)) {
+                        if (!d.error)
+                            continue;
+                        any = true;
+                        got << " [" << d.msg << " path='" << d.path << "' " << d.sline << ":" << d.scol << "-" << d.eline << ":" << d.ecol << "]";
+                        if (d.path.empty() && !d.unknown && d.sline == line && d.eline == line && d.scol == scol && d.ecol == ecol)
+                            exact = true;
+                    }
+                    if (!exact) {
+                        std::ostringstream os;
+                        os << where << " (XTA rendering): expected an error with empty path at line " << line << " columns " << scol << "-" << ecol
+                           << " for '" << fr.ident << "'; got" << (any ? got.str() : std::string{" no error"});
+                        if (ctx.violation("C06", "range-not-exact", "c06b|xta-range|" + block_sig(b), os.str()))
+                            return;
+                    }
+                } else if (ctx.violation("C06", "fault-not-reported-as-diagnostic", "c06b|xta-threw|" + block_sig(b) + "|" + r.exc_class,
+                                         where + " (XTA rendering): the load ended in " + r.exc_class + ": " + r.exc_what))
+                    return;
+            }
+        }
         // ---------------- builder level: C16 ----------------
         if (ctx.keep(st_builder) && (!b.declaring() || b.kind == BlockRef::GDECL || b.kind == BlockRef::TDECL)) {
             CallSpec c;
